@@ -151,6 +151,16 @@ def cycleTake (items : List Val) : Nat → List Val → List Val
     sees if it stops after `m` items -/
 def cyclePrefix (items : List Val) (m : Nat) : List Val := cycleTake items m []
 
+/-- `itertools.compress(data, selectors)`: the items of `data` paired positionally with `sel`, up to
+    the shorter of the two, kept when the selector is truthy -/
+def compress (data sel : List Val) : List Val :=
+  (data.zip sel).filterMap (fun p => if p.2.truthy then some p.1 else none)
+
+/-- `iter(callable, sentinel)` on the list `rs` of the callable's successive results: the results before
+    the first one that is `==` to the sentinel -/
+def iterSentinel (sentinel : Val) (rs : List Val) : List Val :=
+  rs.takeWhile (fun v => !(v.pyEq sentinel))
+
 /-- the Python slice `items[start:stop:step]` (`step ≥ 1`, `stop = none` for "to the end"):
     cut at `stop`, drop `start`, keep the elements whose offset is a multiple of `step` -/
 def islice (start : Nat) (stop : Option Nat) (step : Nat) (items : List Val) : List Val :=
